@@ -38,15 +38,27 @@ import (
 // model nonce -> concrete nonce
 var c20Nonce = map[int]uint64{1: 0x1111111111111111, 2: 0x2222222222222222, 3: 0x0000000000000001}
 
-type c20Reader struct{ next []uint64 }
+// c20Reader serves reads of any size: scripted nonces first (8 bytes each),
+// real randomness after that. How the code draws its entropy (one nonce at a
+// time, in bulk, through a pool) is its own business: whether a scripted value
+// actually became the nonce is found out from the act the code produces.
+type c20Reader struct {
+	next []uint64
+	real io.Reader
+}
 
 func (r *c20Reader) Read(p []byte) (int, error) {
-	if len(r.next) == 0 || len(p) != 8 {
-		return 0, fmt.Errorf("verif: unexpected read of %d random bytes", len(p))
+	off := 0
+	for ; off+8 <= len(p) && len(r.next) > 0; off += 8 {
+		binary.LittleEndian.PutUint64(p[off:], r.next[0])
+		r.next = r.next[1:]
 	}
-	binary.LittleEndian.PutUint64(p, r.next[0])
-	r.next = r.next[1:]
-	return 8, nil
+	if off < len(p) {
+		if _, err := io.ReadFull(r.real, p[off:]); err != nil {
+			return off, err
+		}
+	}
+	return len(p), nil
 }
 
 type c20Binding struct {
@@ -83,6 +95,36 @@ type c20Variant struct {
 	mid   int // the middle byte: 1..6
 	bytes map[string]bool
 	last  string // the flip applied last in this replay
+	// model nonce -> concrete nonce for this behaviour: the scripted value, or the one the code
+	// was seen to draw instead; used = the value has already been put into some message
+	nv   map[int]uint64
+	used map[int]bool
+}
+
+// learn binds model nonce k to the value the code actually drew. It fails if k
+// already stands for another value in this behaviour (a coincidence of nonces
+// the specification asks for cannot be arranged when nonces cannot be scripted).
+func (v *c20Variant) learn(k int, actual uint64) bool {
+	if v.nv[k] == actual {
+		v.used[k] = true
+		return true
+	}
+	if v.used[k] {
+		return false
+	}
+	// different model nonces stay different values
+	for j, x := range v.nv {
+		if j != k && x == actual {
+			if v.used[j] {
+				return false
+			}
+			v.nv[j] = 0xa5a5a5a500000000 + uint64(j)<<8 + uint64(k)
+		}
+	}
+	v.nv[k] = actual
+	v.used[k] = true
+	v.bytes["nonces_learned"] = true
+	return true
 }
 
 func (v *c20Variant) wordByte() int {
@@ -97,7 +139,8 @@ func (v *c20Variant) wordByte() int {
 
 // nonce: model record [n, f] -> concrete nonce
 func (v *c20Variant) nonce(m kit.V) uint64 {
-	x := c20Nonce[m.Get("n").Int()]
+	v.used[m.Get("n").Int()] = true
+	x := v.nv[m.Get("n").Int()]
 	off := -1
 	switch m.Get("f").Str() {
 	case "lo":
@@ -172,7 +215,7 @@ func TestVerif_C20_Acts(t *testing.T) {
 	cases := kit.LoadCases(t, "behaviours_bare.ndjson")
 	saved := crand.Reader
 	defer func() { crand.Reader = saved }()
-	rd := &c20Reader{}
+	rd := &c20Reader{real: saved}
 	crand.Reader = rd
 	bind := &c20Binding{byPair: map[[2]uint64][sha256.Size]byte{}, byHash: map[[sha256.Size]byte][2]uint64{}}
 	touched := map[string]bool{}
@@ -184,7 +227,11 @@ func TestVerif_C20_Acts(t *testing.T) {
 		}
 		for which := 0; which < nvar; which++ {
 			c := c0
-			vr := &c20Variant{which: which, mid: 1 + ci%6, bytes: touched}
+			vr := &c20Variant{which: which, mid: 1 + ci%6, bytes: touched, nv: map[int]uint64{}, used: map[int]bool{}}
+			for k, x := range c20Nonce {
+				vr.nv[k] = x
+			}
+			unrealizable := false
 			var (
 				ia2   *InitiatorAct2
 				ra3   *ResponderAct3
@@ -224,6 +271,10 @@ func TestVerif_C20_Acts(t *testing.T) {
 							t.Fatalf("InitiateHandshake: %v", err)
 						}
 						m := ia1.Message()
+						if !vr.learn(c.Get("n1").Int(), m.nonce1) {
+							unrealizable = true
+							return
+						}
 						if m.nonce1 != vr.nonce(net.Get("m").Get("nonce")) || m.protocol1 != net.Get("m").Get("proto").Str() {
 							diverge(i, "act1-content", "act 1 does not carry the initiator's nonce and protocol id", net.Get("m").X, fmt.Sprintf("%+v", *m))
 						}
@@ -258,6 +309,10 @@ func TestVerif_C20_Acts(t *testing.T) {
 						}
 						m := ra2.Message()
 						wm := net.Get("m")
+						if !vr.learn(n2, m.nonce2) {
+							unrealizable = true
+							return
+						}
 						if msg := bind.bind(vr.pair(wm.Get("chal")), m.challenge); msg != "" {
 							diverge(i, "challenge", "act 2: "+msg+" (the challenge must be derived from both nonces)", wm.X, nil)
 						}
@@ -326,6 +381,12 @@ func TestVerif_C20_Acts(t *testing.T) {
 			if k != "" && nvar == 3 {
 				k += fmt.Sprintf("/%d", which)
 			}
+			if unrealizable {
+				// the code drew nonces of its own and the behaviour needs a coincidence of nonces
+				rep.Unrealized++
+				rep.Count("unrealizable_nonce_coincidence", 1)
+				k = ""
+			}
 			rep.Eval(k, map[string]interface{}{"ip": c.Get("ip").Str(), "rp": c.Get("rp").Str(), "steps": len(steps),
 				"ist": c.Get("ist").Str(), "rst": c.Get("rst").Str()})
 			_ = key
@@ -335,4 +396,90 @@ func TestVerif_C20_Acts(t *testing.T) {
 		rep.Count(b, 1)
 	}
 	var _ io.Reader = rd
+}
+
+// TestVerif_C20_Freshness binds HandshakeSessions.tla: one process (one node)
+// runs many sessions with the REAL random source; the nonces it draws must be
+// pairwise distinct, and the recorded acts of an earlier session, replayed
+// into later sessions without the honest peer, must be rejected.
+func TestVerif_C20_Freshness(t *testing.T) {
+	kit.RequireEngine(t)
+	rep := kit.NewReport("C20", "freshness")
+	defer rep.Write(t)
+	sessions := kit.IntEnv("VERIF_SESSIONS", 48)
+	const proto = "p"
+	type rec struct {
+		a1 Act1Message
+		a2 Act2Message
+		a3 Act3Message
+	}
+	var recs []rec
+	seen := map[uint64]string{}
+	for i := 0; i < sessions; i++ {
+		ia1, err := InitiateHandshake(proto)
+		if err != nil {
+			t.Fatal(err)
+		}
+		m1 := ia1.Message()
+		ia2 := ia1.Next()
+		ra2, err := AnswerHandshake(m1, proto)
+		if err != nil {
+			rep.Diverge("honest-run-fails", fmt.Sprintf("session %d: AnswerHandshake refused an untouched act 1: %v", i, err), nil, nil, nil)
+			return
+		}
+		m2 := ra2.Message()
+		ra3 := ra2.Next()
+		ia3, err := ia2.Next(m2)
+		if err != nil {
+			rep.Diverge("honest-run-fails", fmt.Sprintf("session %d: the initiator refused an untouched act 2: %v", i, err), nil, nil, nil)
+			return
+		}
+		m3 := ia3.Message()
+		if err := ra3.FinalizeHandshake(m3); err != nil {
+			rep.Diverge("honest-run-fails", fmt.Sprintf("session %d: the responder refused an untouched act 3: %v", i, err), nil, nil, nil)
+			return
+		}
+		recs = append(recs, rec{*m1, *m2, *m3})
+		for who, n := range map[string]uint64{"nonce1": m1.nonce1, "nonce2": m2.nonce2} {
+			name := fmt.Sprintf("%s of session %d", who, i)
+			if prev, dup := seen[n]; dup {
+				rep.Diverge("nonce-reuse", fmt.Sprintf("one node drew the same nonce %#x twice within %d sessions: as %s and as %s", n, sessions, prev, name),
+					map[string]interface{}{"sessions": sessions}, "pairwise distinct nonces", n)
+			}
+			seen[n] = name
+		}
+		rep.Eval(fmt.Sprintf("session:%d", i%7), nil)
+	}
+	rep.Count("nonces_compared", len(seen))
+	// replay of recorded sessions into later sessions of the same node
+	later := kit.IntEnv("VERIF_LATER_SESSIONS", 40)
+	for ri := 0; ri < 3 && ri < len(recs); ri++ {
+		r := recs[ri]
+		for j := 0; j < later; j++ {
+			// the node as responder: recorded act 1, then recorded act 3
+			a1 := r.a1
+			ra2, err := AnswerHandshake(&a1, proto)
+			if err == nil {
+				a3 := r.a3
+				if ra2.Next().FinalizeHandshake(&a3) == nil {
+					rep.Diverge("replay-accepted:responder", fmt.Sprintf("acts 1 and 3 recorded in session %d, replayed into a later session of the same responder (%d sessions later), completed the handshake: the responder drew nonce %#x again", ri, sessions-ri+j, ra2.Message().nonce2),
+						map[string]interface{}{"recorded": ri, "later": j}, "rejected", "accepted")
+				}
+			}
+		}
+		for j := 0; j < later; j++ {
+			// the node as initiator: recorded act 2
+			ia1, err := InitiateHandshake(proto)
+			if err != nil {
+				t.Fatal(err)
+			}
+			a2 := r.a2
+			if _, err := ia1.Next().Next(&a2); err == nil {
+				rep.Diverge("replay-accepted:initiator", fmt.Sprintf("act 2 recorded in session %d, replayed into a later session of the same initiator, was accepted: the initiator drew nonce %#x again", ri, ia1.Message().nonce1),
+					map[string]interface{}{"recorded": ri, "later": j}, "rejected", "accepted")
+			}
+			rep.Count("replays", 2)
+		}
+		rep.Eval(fmt.Sprintf("replay:%d", ri), nil)
+	}
 }
